@@ -20,6 +20,7 @@
  *      strictly decreases in every iteration (marker skipped, "TOC" skipped, marker replaced by a file of any
  *      length): inserted text is never rescanned.  The two inner loops have the obvious variants.
  *  (P) the search position handed to strstr is always inside the string being searched.
+ *  (X) the metadata block the engine reports for an included file is erased, in full, before the file is inserted.
  *  (M) manifest: a path is appended to the manifest only after it was compared with EVERY manifest entry and
  *      found different from each (ghost index g_mk); existing manifest entries are never removed or changed.
  * Found with it (see known_findings.txt): with no search folder the function jumps over the initialisation of
@@ -58,7 +59,7 @@ char * g_last;           /* where the last "{{" was found */
  * A string has no bytes here: str is the address of the object's tag byte (identity only), lengths are the DString fields; "inside the
  * string" is therefore stated over offsets (obligation (P)), not over memory. */
 typedef struct { size_t open_off, stop_off, ins_len; bool opened, ins, toc; bool live; DString * eng_d; DString d; char tag; } dsobj;     /* open_off..toc: ghost of obligation (R), per document */
-typedef struct pool { dsobj fp, eng, buf; } pool;
+typedef struct pool { dsobj fp, eng, buf; size_t meta_off; bool strip_needed, strip_done; } pool;      /* meta_off..: ghost of obligation (X) */
 dsobj * g_S;             /* the document of the call under verification */
 pool * g_p0, * g_p1;     /* its scratch pool, and the (opaque) pool of a nested call */
 static void obj_init(dsobj * o, size_t extra) {
@@ -91,12 +92,14 @@ void add_trailing_sep(DString * d) { ds_relen(d); }
  * capacity is symbolic and unbounded, executions that would outgrow it are left to a larger capacity) */
 void d_string_erase(DString * d, size_t pos, size_t len) {
 	size_t L = d->currentStringLength;
+	if (d == &g_p0->buf.d && pos == 0 && len == g_p0->meta_off) { g_p0->strip_done = true; }
 	if (pos > L || len == 0) { return; }
 	path_changed(d);
 	if (len >= L - pos) { d->currentStringLength = pos; } else { d->currentStringLength = L - len; }
 }
 void d_string_insert(DString * d, size_t pos, const char * s) {
 	ASSERT(s == g_p0->buf.d.str && g_p0->buf.live, "d_string_insert: the inserted text is the buffer read from the file");
+	ASSERT(!g_p0->strip_needed || g_p0->strip_done, "(X) the metadata block of the included file (its whole extent as reported by the engine) is erased before the file is inserted");
 	size_t n = g_p0->buf.d.currentStringLength;                       /* strlen(s): DS_WF of the owner (C19) */
 	ASSUME(d->currentStringLength + n < d->currentStringBufferSize);
 	d->currentStringLength += n;
@@ -142,7 +145,11 @@ bool is_separator(char c) { bool r; return r; }
 
 /* ------------------------------------------------------------------ engine: by contract (metadata end offset inside the string) */
 mmd_engine * mmd_engine_create_with_dstring(DString * d, unsigned long extensions) { dsobj * e = &g_p0->eng; obj_init(e, 0); e->eng_d = d; return (mmd_engine *)e; }
-bool mmd_engine_has_metadata(mmd_engine * e, size_t * end) { bool r; size_t off; ASSUME(off <= g_p0->eng.eng_d->currentStringLength); *end = off; return r; }
+bool mmd_engine_has_metadata(mmd_engine * e, size_t * end) {
+	bool r; size_t off; ASSUME(off <= g_p0->eng.eng_d->currentStringLength); *end = off;
+	if (g_p0->eng.eng_d == &g_p0->buf.d) { g_p0->strip_needed = r && off > 0; g_p0->meta_off = off; g_p0->strip_done = false; }      /* asked about the file just read */
+	return r;
+}
 char * mmd_engine_metavalue_for_key(mmd_engine * e, const char * key) { bool has; return has ? str_fresh() : NULL; }
 void mmd_engine_free(mmd_engine * e, bool freeDString) { ASSERT((dsobj *)e == &g_p0->eng, "the engine freed is the one created"); obj_release(&g_p0->eng); }
 
@@ -194,7 +201,7 @@ DString * scan_file(const char * fname) {
 	ASSERT(!(g_k + 1 < g_stackp->size) || (g_hit && !g_eq), "(G) recursion guard: the path was compared with EVERY path already on the stack (ghost index) and differs from each -- a file is never expanded inside itself");
 	bool exists;
 	if (!exists) { return NULL; }
-	obj_init(&g_p0->buf, DSMAX);
+	obj_init(&g_p0->buf, DSMAX); g_p0->strip_needed = false; g_p0->strip_done = false;
 	return &g_p0->buf.d;
 }
 
